@@ -1,17 +1,18 @@
 #!/bin/sh
 # usage: try_mutant.sh <dir with patch.diff, demo.py> <check id> [tier]
-# Confirms the demo (scratch worktree), then applies the patch to /repo, runs the check, reverts.
+# Everything happens in a scratch worktree of /repo (removed afterwards): the demo is confirmed on the clean and on the
+# patched worktree, then the check runs against the patched worktree (VERIF_REPO) with its evidence and replay files sent
+# to a scratch directory (VERIF_OUT).  /repo and /verif/evidence are never touched, so several of these can run at once.
 D=$1; C=$2; T=${3:-quick}
-WT=/tmp/wt_try_$$
+WT=/tmp/wt_try_$$; OUTD=/tmp/out_try_$$
 git -C /repo worktree add -q --detach $WT HEAD || exit 9
 ( cd $WT && PYTHONPATH=$WT timeout 300 /venv/bin/python $D/demo.py >/dev/null 2>&1 ); CLEAN=$?
 ( cd $WT && git apply $D/patch.diff ) || { echo "patch does not apply"; git -C /repo worktree remove --force $WT; exit 9; }
 ( cd $WT && PYTHONPATH=$WT timeout 300 /venv/bin/python $D/demo.py >/dev/null 2>&1 ); MUT=$?
-git -C /repo worktree remove --force $WT
 echo "demo: clean=$CLEAN mutated=$MUT"
-git -C /repo apply $D/patch.diff || exit 9
-cd /verif && timeout 1800 ./check $C --tier $T > /tmp/try_$$.log 2>&1; RC=$?
-git -C /repo checkout -- .
-echo "check $C [$T] exit=$RC violations=$(grep -c '^VIOLATION' /tmp/try_$$.log)"
-grep -v '^VIOLATION' /tmp/try_$$.log | tail -3 | cut -c1-300
-rm -f /tmp/try_$$.log
+mkdir -p $OUTD
+cd /verif && VERIF_REPO=$WT VERIF_OUT=$OUTD timeout 1800 ./check $C --tier $T > $OUTD/log 2>&1; RC=$?
+echo "check $C [$T] exit=$RC violations=$(grep -c '^VIOLATION' $OUTD/log)"
+grep -v '^VIOLATION' $OUTD/log | tail -3 | cut -c1-300
+git -C /repo worktree remove --force $WT
+rm -rf $OUTD
